@@ -14,18 +14,28 @@
 (* waits until the writer goroutine has finished (the repaired design).    *)
 (* C11 (L0): when the entry point has returned, every message has been     *)
 (* completely written.                                                     *)
+(*                                                                         *)
+(* WriteFailsAt = k > 0 names a hazard of the design as it stands: the     *)
+(* writers of rtcmfilter (writeRTCMMessages, writeAllMessages) return at   *)
+(* the first write error and so stop receiving, while the fan-out keeps    *)
+(* sending to their channel: with the k-th write failing, `Returns` does   *)
+(* not hold - the program hangs with the output lost (Apps_fail.cfg, kept  *)
+(* as an expected violation; no listed property covers a failing output,   *)
+(* the C11 cases with a failing output use the display log, whose writer   *)
+(* ignores errors).                                                        *)
 (***************************************************************************)
 EXTENDS Integers, Sequences
 
 CONSTANTS NMsg,            \* messages produced by the pipeline
           Cap,             \* capacity of the writer's channel (displayrtcm3: 2, rtcmfilter: 0)
-          WaitForWriters
+          WaitForWriters,
+          WriteFailsAt     \* 0: every write succeeds; k: the k-th write fails and the writer goroutine returns
 
 VARIABLES pcM,     \* "send" | "close" | "wait" | "returned"
           next,    \* next message to send
           ch,      \* channel buffer
           closed,
-          pcW,     \* "recv" | "write" | "done"
+          pcW,     \* "recv" | "write" | "done" | "gone" (returned after a write error, channel not drained)
           cur,     \* message being written
           written  \* messages completely written
 
@@ -54,14 +64,17 @@ RecvBuf == /\ pcW = "recv" /\ ch # <<>>
            /\ UNCHANGED <<pcM, next, closed, written>>
 RecvClosed == /\ pcW = "recv" /\ ch = <<>> /\ closed /\ pcW' = "done"
               /\ UNCHANGED <<pcM, next, ch, closed, cur, written>>
-WriteEnd == /\ pcW = "write" /\ written' = Append(written, cur) /\ pcW' = "recv"
+WriteEnd == /\ pcW = "write" /\ Len(written) + 1 # WriteFailsAt
+            /\ written' = Append(written, cur) /\ pcW' = "recv"
             /\ UNCHANGED <<pcM, next, ch, closed, cur>>
+WriteFail == /\ pcW = "write" /\ Len(written) + 1 = WriteFailsAt /\ pcW' = "gone"
+             /\ UNCHANGED <<pcM, next, ch, closed, cur, written>>
 
-Next == SendBuf \/ SendRdv \/ AllSent \/ CloseChan \/ WaitDone \/ RecvBuf \/ RecvClosed \/ WriteEnd
+Next == SendBuf \/ SendRdv \/ AllSent \/ CloseChan \/ WaitDone \/ RecvBuf \/ RecvClosed \/ WriteEnd \/ WriteFail
 Spec == Init /\ [][Next]_vars /\ WF_vars(Next)
 
 \* C11
-AllWrittenAtReturn == pcM = "returned" => written = [k \in 1..NMsg |-> k]
+AllWrittenAtReturn == (pcM = "returned" /\ WriteFailsAt = 0) => written = [k \in 1..NMsg |-> k]
 \* order and no duplication at all times
 WrittenPrefix == written = [k \in 1..Len(written) |-> k]
 Returns == <>(pcM = "returned")
